@@ -525,7 +525,12 @@ class Parser:
     def _parse_return_statement(self) -> ReturnStatement:
         """Parse return statement."""
         argument = None
-        if not self._check(TokenType.SEMICOLON) and not self._check(TokenType.RBRACE):
+        # The value starts on the same line (ASI rule, as for break and continue)
+        if (
+            not self._check(TokenType.SEMICOLON)
+            and not self._check(TokenType.RBRACE)
+            and self.current.line == self.previous.line
+        ):
             argument = self._parse_expression()
         self._consume_semicolon()
         return ReturnStatement(argument)
